@@ -398,9 +398,12 @@ def _parse_instr(s):
         else:
             m = re.match(r"^(%s)\s+(.*)$" % _TY, rest)
             if not m:
-                raise AnalysisBroken("unsupported ret: %s" % s)
-            ins.ty = m.group(1)
-            ins.args = [_operand(m.group(2), ins.ty)]
+                # an aggregate is returned: the function can be scanned, not turned into a DAG
+                ins.ty = "aggregate"
+                ins.args = []
+            else:
+                ins.ty = m.group(1)
+                ins.args = [_operand(m.group(2), ins.ty)]
     elif op == "call" or op == "invoke":
         m = re.match(r"^(?:(?:fast|nnan|ninf|nsz|arcp|contract|afn|reassoc|noundef|signext|zeroext)\s+)*(.+?)\s+@([\w.$]+)\((.*)\)", rest)
         if not m:
